@@ -27,9 +27,12 @@ def template(rng):
            "k CONST FLOAT64 2.5", "ki CONST INT32 -7", "ca CARRAY UINT16 1 2 3 4", "s STRING hello", "sa SARRAY x y z",
            "l1 LINCOM 1 a k 1", "l2 LINCOM 2 a 1 0 b 2 1", "ph PHASE a 3", "bt BIT a 2 3", "mu MULTIPLY a b", "rc RECIP b k",
            "po POLYNOM b 1 2 3", "wi WINDOW a c GE 2", "mp MPLEX a c 1 4", "ind INDIR c ca", "lt LINTERP a lut.txt",
-           "a/m CONST UINT8 5", "a/ms STRING meta", "/ALIAS al l1", "/ALIAS al2 al", "/HIDDEN rc",
+           "a/m CONST UINT8 5", "a/ms STRING meta", "a/msa SARRAY p q r", "a/mca CARRAY UINT8 1 2 3", "sind SINDIR c a/msa", "ind2 INDIR c a/mca",
+           "/ALIAS al l1", "/ALIAS al2 al", "/HIDDEN rc",
            "/INCLUDE sub/format2 P_ _S"]
-    sub = ["/VERSION 10", "/ENCODING none", "x RAW INT32 1", "y LINCOM 1 x 2 0", "kk CONST UINT8 1"]
+    # (the last four: names that look like numbers once the fragment's affixes are stripped, used as scalar parameters)
+    sub = ["/VERSION 10", "/ENCODING none", "x RAW INT32 1", "y LINCOM 1 x 2 0", "kk CONST UINT8 1",
+           "1e3 CONST UINT8 7", "10 CONST FLOAT64 2.5", "pz PHASE x 1e3<0>", "lz LINCOM 1 x 10<0> 1e3<0>"]
     L = ["reset", "file format " + hx("\n".join(fmt) + "\n"), "file sub/format2 " + hx("\n".join(sub) + "\n"),
          "file lut.txt " + hx("0 0\n1 2\n5 9\n")]
     vals_a = [rng.randint(0, 60000) for _ in range(40)]
@@ -123,8 +126,14 @@ def run(ctx):
     chunks = []
     for i in range(nscripts):
         enc, L = template(rng)
+        missing = (i % 3 == 2)
+        if missing:
+            # one data file is absent: every call that needs the size or the data of b (or of a field derived from it) fails with GD_E_IO
+            L = [l for l in L if not l.startswith("file b")]
         L.append("open " + ("rdwr" if i % 4 else "rdonly"))
         pool = op_pool(rng)
+        if missing:
+            pool += ["eof b", "eof rc", "eof mu", "bof b", "seek l2 0 0 end", "seek b 0 2 set", "get b 0 0 0 3 f64", "get po 0 0 0 3 f64", "nframes", "tell b", "framenum b 3 0 0"] * 2
         rng.shuffle(pool)
         nops = len(pool) if ctx.thorough() else 90
         L.append("snap")
